@@ -156,3 +156,214 @@ pub proof fn lemma_cleared(old_bytes: Seq<u8>, t: Seq<u8>, c: Seq<u8>, s: int, e
         assert(e % 8 > 0);
     }
 }
+
+// ---- the sequence of 8-bit groups of bits [pos, end): what Iter8 yields ----
+pub open spec fn glen(pos: int, end: int) -> int { if end - pos < 8 { end - pos } else { 8 } }
+
+pub open spec fn group_of(s: Seq<u8>, pos: int, len: int) -> (u8, u32) {
+    choose|g: (u8, u32)| is_group(s, pos, len, g)
+}
+
+pub open spec fn groups(s: Seq<u8>, pos: int, end: int) -> Seq<(u8, u32)>
+    decreases end - pos
+{
+    if pos >= end { Seq::empty() } else { seq![group_of(s, pos, glen(pos, end))] + groups(s, pos + glen(pos, end), end) }
+}
+
+pub proof fn lemma_low_bits_determine(v1: u8, v2: u8)
+    requires
+        (v1 >> 0u8) & 1u8 == (v2 >> 0u8) & 1u8, (v1 >> 1u8) & 1u8 == (v2 >> 1u8) & 1u8,
+        (v1 >> 2u8) & 1u8 == (v2 >> 2u8) & 1u8, (v1 >> 3u8) & 1u8 == (v2 >> 3u8) & 1u8,
+        (v1 >> 4u8) & 1u8 == (v2 >> 4u8) & 1u8, (v1 >> 5u8) & 1u8 == (v2 >> 5u8) & 1u8,
+        (v1 >> 6u8) & 1u8 == (v2 >> 6u8) & 1u8, (v1 >> 7u8) & 1u8 == (v2 >> 7u8) & 1u8,
+    ensures v1 == v2
+{
+    assert(((v1 >> 0u8) & 1u8 == (v2 >> 0u8) & 1u8) && ((v1 >> 1u8) & 1u8 == (v2 >> 1u8) & 1u8)
+        && ((v1 >> 2u8) & 1u8 == (v2 >> 2u8) & 1u8) && ((v1 >> 3u8) & 1u8 == (v2 >> 3u8) & 1u8)
+        && ((v1 >> 4u8) & 1u8 == (v2 >> 4u8) & 1u8) && ((v1 >> 5u8) & 1u8 == (v2 >> 5u8) & 1u8)
+        && ((v1 >> 6u8) & 1u8 == (v2 >> 6u8) & 1u8) && ((v1 >> 7u8) & 1u8 == (v2 >> 7u8) & 1u8) ==> v1 == v2) by (bit_vector);
+}
+
+// bit k (0 = least significant) of a value whose bits above `len` are zero
+pub proof fn lemma_high_zero(v: u8, len: u8, k: u8)
+    requires len < 8, (v >> len) == 0u8, len <= k < 8
+    ensures (v >> k) & 1u8 == 0u8
+{
+    assert(len < 8 && (v >> len) == 0u8 && len <= k && k < 8 ==> (v >> k) & 1u8 == 0u8) by (bit_vector);
+}
+
+pub open spec fn lowbit(v: u8, k: int) -> u8 { (v >> (k as u8)) & 1u8 }
+
+pub proof fn lemma_group_unique(s: Seq<u8>, pos: int, len: int, g1: (u8, u32), g2: (u8, u32))
+    requires is_group(s, pos, len, g1), is_group(s, pos, len, g2)
+    ensures g1 == g2
+{
+    let v1 = g1.0; let v2 = g2.0;
+    assert forall|k: int| 0 <= k < 8 implies #[trigger] lowbit(v1, k) == lowbit(v2, k) by {
+        if k < len {
+            let j = len - 1 - k;
+            assert(field_bit(v1, len, j) == bit_at(s, pos + j));
+            assert(field_bit(v2, len, j) == bit_at(s, pos + j));
+            let a = (v1 >> (k as u8)) & 1u8; let b = (v2 >> (k as u8)) & 1u8;
+            assert((len - 1 - j) as u8 == k as u8);
+            assert(a == 0u8 || a == 1u8) by { let kk = k as u8; assert(((v1 >> kk) & 1u8) == 0u8 || ((v1 >> kk) & 1u8) == 1u8) by (bit_vector); }
+            assert(b == 0u8 || b == 1u8) by { let kk = k as u8; assert(((v2 >> kk) & 1u8) == 0u8 || ((v2 >> kk) & 1u8) == 1u8) by (bit_vector); }
+        } else {
+            lemma_high_zero(v1, len as u8, k as u8);
+            lemma_high_zero(v2, len as u8, k as u8);
+        }
+    }
+    assert(lowbit(v1, 0) == lowbit(v2, 0));
+    assert(lowbit(v1, 1) == lowbit(v2, 1));
+    assert(lowbit(v1, 2) == lowbit(v2, 2));
+    assert(lowbit(v1, 3) == lowbit(v2, 3));
+    assert(lowbit(v1, 4) == lowbit(v2, 4));
+    assert(lowbit(v1, 5) == lowbit(v2, 5));
+    assert(lowbit(v1, 6) == lowbit(v2, 6));
+    assert(lowbit(v1, 7) == lowbit(v2, 7));
+    lemma_low_bits_determine(v1, v2);
+}
+
+// ---- every position has a group (so `group_of` is a real choice), and what the groups of a range are
+pub open spec fn pack8(b0: bool, b1: bool, b2: bool, b3: bool, b4: bool, b5: bool, b6: bool, b7: bool) -> u8 {
+    (if b0 { 0x80u8 } else { 0u8 }) | (if b1 { 0x40u8 } else { 0u8 }) | (if b2 { 0x20u8 } else { 0u8 }) | (if b3 { 0x10u8 } else { 0u8 })
+    | (if b4 { 0x08u8 } else { 0u8 }) | (if b5 { 0x04u8 } else { 0u8 }) | (if b6 { 0x02u8 } else { 0u8 }) | (if b7 { 0x01u8 } else { 0u8 })
+}
+
+pub proof fn lemma_pack8(b0: bool, b1: bool, b2: bool, b3: bool, b4: bool, b5: bool, b6: bool, b7: bool)
+    ensures ({ let w = pack8(b0, b1, b2, b3, b4, b5, b6, b7);
+        &&& (((w >> 7u8) & 1u8) == 1u8) == b0 &&& (((w >> 6u8) & 1u8) == 1u8) == b1
+        &&& (((w >> 5u8) & 1u8) == 1u8) == b2 &&& (((w >> 4u8) & 1u8) == 1u8) == b3
+        &&& (((w >> 3u8) & 1u8) == 1u8) == b4 &&& (((w >> 2u8) & 1u8) == 1u8) == b5
+        &&& (((w >> 1u8) & 1u8) == 1u8) == b6 &&& (((w >> 0u8) & 1u8) == 1u8) == b7 })
+{
+    let x0 = if b0 { 0x80u8 } else { 0u8 }; let x1 = if b1 { 0x40u8 } else { 0u8 };
+    let x2 = if b2 { 0x20u8 } else { 0u8 }; let x3 = if b3 { 0x10u8 } else { 0u8 };
+    let x4 = if b4 { 0x08u8 } else { 0u8 }; let x5 = if b5 { 0x04u8 } else { 0u8 };
+    let x6 = if b6 { 0x02u8 } else { 0u8 }; let x7 = if b7 { 0x01u8 } else { 0u8 };
+    let w = x0 | x1 | x2 | x3 | x4 | x5 | x6 | x7;
+    assert((x0 == 0x80u8 || x0 == 0u8) && (x1 == 0x40u8 || x1 == 0u8) && (x2 == 0x20u8 || x2 == 0u8) && (x3 == 0x10u8 || x3 == 0u8)
+        && (x4 == 0x08u8 || x4 == 0u8) && (x5 == 0x04u8 || x5 == 0u8) && (x6 == 0x02u8 || x6 == 0u8) && (x7 == 0x01u8 || x7 == 0u8)
+        && w == x0 | x1 | x2 | x3 | x4 | x5 | x6 | x7 ==>
+           ((((w >> 7u8) & 1u8) == 1u8) == (x0 == 0x80u8)) && ((((w >> 6u8) & 1u8) == 1u8) == (x1 == 0x40u8))
+        && ((((w >> 5u8) & 1u8) == 1u8) == (x2 == 0x20u8)) && ((((w >> 4u8) & 1u8) == 1u8) == (x3 == 0x10u8))
+        && ((((w >> 3u8) & 1u8) == 1u8) == (x4 == 0x08u8)) && ((((w >> 2u8) & 1u8) == 1u8) == (x5 == 0x04u8))
+        && ((((w >> 1u8) & 1u8) == 1u8) == (x6 == 0x02u8)) && ((((w >> 0u8) & 1u8) == 1u8) == (x7 == 0x01u8))) by (bit_vector);
+}
+
+pub proof fn lemma_group_exists(s: Seq<u8>, pos: int, len: int)
+    requires 1 <= len <= 8
+    ensures is_group(s, pos, len, group_of(s, pos, len))
+{
+    let b = |j: int| j < len && bit_at(s, pos + j);
+    let w = pack8(b(0), b(1), b(2), b(3), b(4), b(5), b(6), b(7));
+    lemma_pack8(b(0), b(1), b(2), b(3), b(4), b(5), b(6), b(7));
+    let sh = (8 - len) as u8;
+    let l8 = len as u8;
+    let v = w >> sh;
+    assert forall|j: int| 0 <= j < len implies field_bit(v, len, j) == bit_at(s, pos + j) by {
+        let k = (len - 1 - j) as u8;
+        let m = (7 - j) as u8;
+        assert(sh <= 7 && k <= 7 && m <= 7 && m == sh + k && v == w >> sh ==> ((v >> k) & 1u8) == ((w >> m) & 1u8)) by (bit_vector);
+        assert((((w >> m) & 1u8) == 1u8) == b(j));
+    }
+    if len < 8 {
+        assert(1 <= l8 && l8 < 8 && sh == 8 - l8 && v == w >> sh ==> (v >> l8) == 0u8) by (bit_vector);
+    }
+    assert(is_group(s, pos, len, (v, len as u32)));
+}
+
+// the groups of [pos,end): one per started byte, the k-th packs the bits from pos+8k on
+pub proof fn lemma_groups(s: Seq<u8>, pos: int, end: int)
+    requires pos <= end
+    ensures
+        groups(s, pos, end).len() == ubi(end - pos),
+        forall|k: int| 0 <= k < ubi(end - pos) ==> #[trigger] groups(s, pos, end)[k] == group_of(s, pos + 8 * k, glen(pos + 8 * k, end))
+            && is_group(s, pos + 8 * k, glen(pos + 8 * k, end), groups(s, pos, end)[k]),
+    decreases end - pos
+{
+    if pos < end {
+        let l = glen(pos, end);
+        lemma_groups(s, pos + l, end);
+        lemma_group_exists(s, pos, l);
+        let rest = groups(s, pos + l, end);
+        assert(groups(s, pos, end) =~= seq![group_of(s, pos, l)] + rest);
+        assert forall|k: int| 0 <= k < ubi(end - pos) implies #[trigger] groups(s, pos, end)[k] == group_of(s, pos + 8 * k, glen(pos + 8 * k, end))
+            && is_group(s, pos + 8 * k, glen(pos + 8 * k, end), groups(s, pos, end)[k]) by {
+            if k > 0 {
+                assert(l == 8);
+                assert(groups(s, pos, end)[k] == rest[k - 1]);
+                assert(pos + l + 8 * (k - 1) == pos + 8 * k);
+            }
+        }
+    }
+}
+
+// left-aligning a group gives the byte whose leading bits are the group's bits
+pub proof fn lemma_group_left(v: u8, n: int, j: int)
+    requires 1 <= n <= 8, 0 <= j < n
+    ensures byte_bit(v << ((8 - n) as u8), j) == field_bit(v, n, j)
+{
+    let sh = (8 - n) as u8; let k = (n - 1 - j) as u8; let m = (7 - j) as u8;
+    assert(sh <= 7 && k <= 7 && m <= 7 && m == sh + k ==> (((v << sh) >> m) & 1u8) == ((v >> k) & 1u8)) by (bit_vector);
+}
+
+pub proof fn lemma_group_left_pad(v: u8, n: int, j: int)
+    requires 1 <= n <= 8, n <= j < 8
+    ensures !byte_bit(v << ((8 - n) as u8), j)
+{
+    let sh = (8 - n) as u8; let m = (7 - j) as u8;
+    assert(sh <= 7 && m < sh ==> (((v << sh) >> m) & 1u8) == 0u8) by (bit_vector);
+}
+
+// two ranges of equal length have the same groups exactly when they hold the same bits
+pub proof fn lemma_groups_eq(a: Seq<u8>, sa: int, b: Seq<u8>, sb: int, n: int)
+    requires 0 <= n
+    ensures (groups(a, sa, sa + n) == groups(b, sb, sb + n)) <==> (bits_of(a, sa, sa + n) == bits_of(b, sb, sb + n))
+{
+    lemma_groups(a, sa, sa + n);
+    lemma_groups(b, sb, sb + n);
+    let ga = groups(a, sa, sa + n); let gb = groups(b, sb, sb + n);
+    if ga == gb {
+        assert forall|p: int| 0 <= p < n implies #[trigger] bits_of(a, sa, sa + n)[p] == bits_of(b, sb, sb + n)[p] by {
+            let k = p / 8; let j = p % 8;
+            assert(is_group(a, sa + 8 * k, glen(sa + 8 * k, sa + n), ga[k]));
+            assert(is_group(b, sb + 8 * k, glen(sb + 8 * k, sb + n), gb[k]));
+            assert(field_bit(ga[k].0, glen(sa + 8 * k, sa + n), j) == bit_at(a, sa + 8 * k + j));
+            assert(field_bit(gb[k].0, glen(sb + 8 * k, sb + n), j) == bit_at(b, sb + 8 * k + j));
+        }
+        assert(bits_of(a, sa, sa + n) =~= bits_of(b, sb, sb + n));
+    }
+    if bits_of(a, sa, sa + n) == bits_of(b, sb, sb + n) {
+        assert forall|k: int| 0 <= k < ubi(n) implies ga[k] == gb[k] by {
+            let l = glen(sa + 8 * k, sa + n);
+            assert(l == glen(sb + 8 * k, sb + n));
+            assert(is_group(a, sa + 8 * k, l, ga[k]));
+            assert(is_group(b, sb + 8 * k, l, gb[k]));
+            assert forall|j: int| 0 <= j < l implies field_bit(ga[k].0, l, j) == bit_at(b, sb + 8 * k + j) by {
+                assert(bits_of(a, sa, sa + n)[8 * k + j] == bits_of(b, sb, sb + n)[8 * k + j]);
+            }
+            assert(is_group(b, sb + 8 * k, l, ga[k]));
+            lemma_group_unique(b, sb + 8 * k, l, ga[k], gb[k]);
+        }
+        assert(ga =~= gb);
+    }
+}
+
+pub proof fn lemma_byte_ext(x: u8, y: u8)
+    requires forall|j: int| 0 <= j < 8 ==> byte_bit(x, j) == byte_bit(y, j)
+    ensures x == y
+{
+    assert forall|k: int| 0 <= k < 8 implies #[trigger] lowbit(x, k) == lowbit(y, k) by {
+        let kk = k as u8;
+        assert(byte_bit(x, 7 - k) == byte_bit(y, 7 - k));
+        assert((7 - (7 - k)) as u8 == kk);
+        assert(((x >> kk) & 1u8) == 0u8 || ((x >> kk) & 1u8) == 1u8) by (bit_vector);
+        assert(((y >> kk) & 1u8) == 0u8 || ((y >> kk) & 1u8) == 1u8) by (bit_vector);
+    }
+    assert(lowbit(x, 0) == lowbit(y, 0)); assert(lowbit(x, 1) == lowbit(y, 1));
+    assert(lowbit(x, 2) == lowbit(y, 2)); assert(lowbit(x, 3) == lowbit(y, 3));
+    assert(lowbit(x, 4) == lowbit(y, 4)); assert(lowbit(x, 5) == lowbit(y, 5));
+    assert(lowbit(x, 6) == lowbit(y, 6)); assert(lowbit(x, 7) == lowbit(y, 7));
+    lemma_low_bits_determine(x, y);
+}
